@@ -44,7 +44,7 @@ pub fn run_step(db: &mut SparqlDatabase, st: &Value) -> Value {
             let r = guarded(|| match ep {
                 "db" => db.execute_update(text),
                 "volcano" => { execute_query_rayon_parallel2_volcano(text, db); Ok(Default::default()) }
-                "handle" => { let s = db.handle_update(text); if s.to_lowercase().contains("error") { Err(s) } else { Ok(Default::default()) } }
+                "handle" => { let s = db.handle_update(text); if s.starts_with("Update Successful") { Ok(Default::default()) } else { Err(s) } }
                 _ => execute_sparql_update(text, db),
             });
             match r {
@@ -56,7 +56,14 @@ pub fn run_step(db: &mut SparqlDatabase, st: &Value) -> Value {
         "http" => {
             let r = guarded(|| db.handle_http_request(text));
             match r {
-                Ok(s) => ev["rows"] = json!([[s]]),
+                Ok(s) => {
+                    if s.starts_with("Query Failed") || s.starts_with("Update Failed") || s.starts_with("Bad Request") {
+                        ev["res"] = json!("err");
+                        ev["err"] = json!(s);
+                    } else {
+                        ev["rows"] = json!([[s]]);
+                    }
+                }
                 Err(p) => { ev["res"] = json!("panic"); ev["err"] = json!(p); }
             }
         }
